@@ -85,6 +85,16 @@ def exotic_project(rnd, idx):
                 vform = rnd.choice(["V{j}", "V{j}(i32, String)", "V{j} {{ a: i32, b: Vec<u8> }}", "#[serde(@P@)]\n    V{j}", "V{j} = 5", "r#V{j}"])
                 variants.append(vform.format(j=j).replace("@P@", serde_payloads(rnd)))
             src.append("#[derive(Serialize, Deserialize)]\n#[serde(%s)]\npub enum E%d_%d {\n    %s\n}\n\n" % (serde_payloads(rnd), idx, k, ",\n    ".join(variants)))
+    if rnd.random() < 0.4:
+        # non-ASCII type names inside multi-argument constructors (byte offsets vs character positions)
+        nm = rnd.choice(["Größe", "データ", "Zoë", "Ñandú", "Ελληνικά"]) + "%d" % idx
+        src.append("#[derive(Serialize, Deserialize)]\npub struct %s { pub v: i32 }\n\n" % nm)
+        shapes = ["Result<%s, String>", "HashMap<%s, u32>", "(%s, u32)", "BTreeMap<%s, Vec<%s>>", "Result<Vec<(%s, %s)>, %s>", "Option<(u8, %s, %s)>", "HashMap<String, Result<%s, %s>>"]
+        for j in range(rnd.randint(1, 3)):
+            sh_ = rnd.choice(shapes)
+            ty = sh_ % tuple([nm] * sh_.count("%s"))
+            src.append("#[tauri::command]\npub fn cu%d_%d(p: %s, ch: Channel<%s>) -> %s {\n    todo!()\n}\n\n" % (idx, j, ty, ty, ty))
+            src.append("#[derive(Serialize, Deserialize)]\npub struct Hu%d_%d { pub f: %s }\n\npub fn eu%d_%d(app: AppHandle, x: %s) {\n    app.emit(\"eu\", x).unwrap();\n}\n\n" % (idx, j, ty, idx, j, ty))
     for k in range(rnd.randint(1, 4)):
         params = []
         for j in range(rnd.randint(0, 4)):
